@@ -71,10 +71,19 @@ def hHdr : Handler := fun impl => do
   let x : Input := { flag := flag, ae := if hasAE then ae else [], originHeaders := h, originBody := body }
   let rc := decision x
   let r := respond toyExt x
-  let model := s!"{r.status} {showHeader r.headers} {toHex r.body} {if r.body = x.originBody then 1 else 0}"
+  -- last token (C05): a Content-Length that reaches the client equals the bytes delivered. The generator's
+  -- origin states its length correctly, so by Props.C05Recompress.content_length_only_with_the_origins_bytes
+  -- the model's answer is: consistent, unless the length survives next to a changed body (never)
+  let clOK := r.headers.get kContentLength == [] || r.body == x.originBody
+  let model := s!"{r.status} {showHeader r.headers} {toHex r.body} {if r.body = x.originBody then 1 else 0} {if clOK then 1 else 0}"
+  let c05 := match impl.getLast? with
+    | some "0" => ["bad:C05:content-length-differs-from-the-bytes-delivered"]
+    | _ => []
   let oracle :=
     match run (do let st ← pNat; let hh ← pHeaderMap; let b ← pBytes; pure (st, hh, b)) impl with
-    | .ok (st, hh, b) => oracleString (Spec.C06.violations toyExt x { status := st, headers := hh, body := b })
+    | .ok (st, hh, b) =>
+      let o6 := oracleString (Spec.C06.violations toyExt x { status := st, headers := hh, body := b })
+      if c05.isEmpty then o6 else if o6 = "ok" then ",".intercalate c05 else o6 ++ "," ++ ",".intercalate c05
     | .error _ => "na"
   let vary := x.originHeaders.get kVary
   let label :=
@@ -87,7 +96,9 @@ def hHdr : Handler := fun impl => do
             (if (x.originHeaders.values kVary).isEmpty then ""
              else if varyRewrite vary = kAcceptEncoding then ":vary-replaced" else ":vary-appended")
           else "")
-  return { model := model, oracle := oracle, cls := clsString (Spec.C06.classes x), label := label }
+  -- finding C05-d: a body labelled gzip that does not decode is answered 500 under the origin's own headers
+  let c05d := if r.status = 500 ∧ !clOK then ["C05-d"] else []
+  return { model := model, oracle := oracle, cls := clsString (Spec.C06.classes x ++ c05d), label := label }
 
 /-- the codec laws on the real libraries (a sampled test of the theorems' hypotheses); the
     model side states the same four laws for the toy codec -/
@@ -100,6 +111,6 @@ def hLaw : Handler := fun _ => do
 
 def handlers : List (String × Handler) := [
   ("recomp", hRecomp), ("recomphdr", hHdr), ("codeclaw", hLaw),
-  ("kf.C06-a", hHdr), ("kf.C06-b", hHdr), ("kf.C06-c", hHdr), ("kf.C06-d", hHdr) ]
+  ("kf.C06-a", hHdr), ("kf.C06-b", hHdr), ("kf.C06-c", hHdr), ("kf.C06-d", hHdr), ("kf.C05-d", hHdr) ]
 
 end H.Recompress
